@@ -24,6 +24,9 @@ def body(ctx):
     returns(ctx, ex, prog, viol)
     registration(ctx, ex, prog, viol)
     listener_queues(ctx, prog)
+    # a returned message of any size reaches the listener: reassembly over several body frames (the content obligations of C03 for returns)
+    import c03
+    c03.content_sequences(ctx, prog, ex, ctx.q(2, 3), VAL, ('Return',))
     VAL.run()
     for v in viol[:6]:
         ctx.inconclusive.append(f"C13 counterexample (no native replay generator yet): {v}")
